@@ -47,6 +47,7 @@ def Lab.id : Lab := ⟨[], by simp⟩
 
 /-- the same labels with the table extended (by identity) to at least `k` nodes -/
 def Lab.grow (lab : Lab) (k : Nat) : Lab :=
+  if k ≤ lab.lst.length then lab else
   ⟨lab.lst ++ List.range' lab.lst.length (k - lab.lst.length), by
     intro x hx
     simp only [List.length_append, List.length_range']
@@ -55,17 +56,23 @@ def Lab.grow (lab : Lab) (k : Nat) : Lab :=
     · have := List.mem_range'_1.1 h; omega⟩
 
 theorem Lab.grow_f (lab : Lab) (k i : Nat) : (lab.grow k).f i = lab.f i := by
-  unfold Lab.f Lab.grow
-  simp only [List.getD_eq_getElem?_getD]
-  by_cases h1 : i < lab.lst.length
-  · rw [List.getElem?_append_left h1]
-  · rw [List.getElem?_append_right (by omega), List.getElem?_eq_none (show lab.lst.length ≤ i by omega)]
-    by_cases h2 : i - lab.lst.length < k - lab.lst.length
-    · rw [List.getElem?_range' h2]; simp; omega
-    · rw [List.getElem?_eq_none (by simp; omega)]
+  unfold Lab.grow
+  split
+  · rfl
+  · unfold Lab.f
+    simp only [List.getD_eq_getElem?_getD]
+    by_cases h1 : i < lab.lst.length
+    · rw [List.getElem?_append_left h1]
+    · rw [List.getElem?_append_right (by omega), List.getElem?_eq_none (show lab.lst.length ≤ i by omega)]
+      by_cases h2 : i - lab.lst.length < k - lab.lst.length
+      · rw [List.getElem?_range' h2]; simp; omega
+      · rw [List.getElem?_eq_none (by simp; omega)]
 
 theorem Lab.grow_length (lab : Lab) (k : Nat) : k ≤ (lab.grow k).lst.length := by
-  simp only [Lab.grow, List.length_append, List.length_range']; omega
+  unfold Lab.grow
+  split
+  · assumption
+  · simp only [List.length_append, List.length_range']; omega
 
 theorem Lab.f_lt (lab : Lab) {i : Nat} (h : i < lab.lst.length) : lab.f i < lab.lst.length := by
   unfold Lab.f
